@@ -6,7 +6,10 @@
 //
 // This file is deliberately NOT a _test.go file: go-snaps locates snapshots from the first
 // _test.go frame on the stack, so the interpreter must not look like a test file, and closures
-// handed to t.Run are created in main_test.go (see DESIGN.md §4.1).
+// handed to t.Run are created in main_test.go (see DESIGN.md §4.1).  Its NAME, however, contains
+// "_test" on purpose (interp_testkit.go): the rule is "base name ends in _test.go", and a rule
+// loosened to "contains _test" (seeded change R6-C11-A) would take this file for the test file,
+// which every check then reports as a wrong location.
 package vprog
 
 import (
